@@ -40,6 +40,11 @@ def check(model, rep, tier):
   rep.rule('TREE-TEXT', 'text loaded = text mapped = text shown', floor=9)
   rep.rule('TREE-LITERAL', 'literal parts of qualified names are parser-produced '
            'constants (they are printed back as ast.Constant)', floor=1)
+  rep.rule('TREE-NONEMPTY', 'no generated compound statement has an empty '
+           'statement list (statement handlers never delete; shortened user '
+           'blocks get a `pass`)', floor=30)
+  from sa import rules_nonempty
+  rules_nonempty.check(model, rep, 'TREE-NONEMPTY')
 
   # ---------------------------------------------------------------- TREE-CTOR
   n = 0
